@@ -481,7 +481,7 @@ impl<'a> Ctx<'a> {
                 }
             }
         }
-        vars.sort_by_key(|n| self.decl_index_pub(n));
+        vars.sort();
         let c = self.cond_expr(&i.cond, out);
         let st = format!("br{}", self.fresh());
         out.push(format!("let {st} ← if {c} then do"));
